@@ -196,7 +196,8 @@ def replay(case):
 
 def _strategy():
     return lifecycle_cases(statuses_full=True, respawn_false=True,
-                           kill_cmd=True, set_other=True, rm=True,
+                           kill_cmd=True, signal_cmd=True, job_control=True,
+                           children=1, set_other=True, rm=True,
                            config=True, ondemand=True, hooks=True,
                            capture=True)
 
